@@ -17,6 +17,7 @@ use zvt::{packets, ZVTResult, ZvtParser};
 pub struct C04;
 
 /// Observes exactly which bytes the transport hands to a packet parser.
+#[derive(Debug)]
 pub struct RawFrame(pub Vec<u8>);
 
 /// Class byte of frames the harness parser refuses (as a reply parser refuses a packet outside its
@@ -176,7 +177,7 @@ fn run_plan(plan: &C04Plan, want_trace: bool) -> RunOut {
             let (conn, h) = sim_conn(1, plan.wsched.clone(), Box::new(Sink), log.clone());
             let mut pt = PacketTransport { source: conn };
             let r = guarded(|| {
-                let (o, _) = exec::run(write_one(&mut pt, f), || false, 400_000);
+                let (o, _) = exec::run(write_one(&mut pt, f), || false, 2_000_000);
                 match o {
                     Outcome::Done(r) => r.map_err(|e| e.to_string()),
                     Outcome::Stuck => Err("writer stuck".to_string()),
@@ -296,7 +297,7 @@ fn run_plan(plan: &C04Plan, want_trace: bool) -> RunOut {
                     }
                 }
             };
-            let (o, polls) = exec::run(fut, || false, 100_000 + 8 * stream_len as u64);
+            let (o, polls) = exec::run(fut, || false, 2_000_000 + 8 * stream_len as u64);
             (
                 match o {
                     Outcome::Done(()) => "done",
